@@ -129,6 +129,23 @@ def configs(U, quick):
             [{W: expr_dir(dV), f: expr_dir(ufl.dot(ufl.grad(g), dV))}],
         )
     )
+    # two derivative nodes with the same coefficient and direction but different user relations in one expansion
+    cf.append(
+        (
+            "d/dw[dv]{f:g} + d/dw[dv]{f:2*w*g}",
+            lambda F: ufl.derivative(F, w, dv, coefficient_derivatives={f: g}) + ufl.derivative(F, w, dv, coefficient_derivatives={f: 2 * w * g}),
+            ("sum", [[{w: expr_dir(dv), f: expr_dir(g * dv)}], [{w: expr_dir(dv), f: expr_dir(2 * w * g * dv)}]]),
+        )
+    )
+    cf.append(
+        (
+            "d/dw[dv]{f:2*w*g} + d/dw[dv] + d/dw[dv]{f:g}",
+            lambda F: ufl.derivative(F, w, dv, coefficient_derivatives={f: 2 * w * g})
+            + ufl.derivative(F, w, dv)
+            + ufl.derivative(F, w, dv, coefficient_derivatives={f: g}),
+            ("sum", [[{w: expr_dir(dv), f: expr_dir(2 * w * g * dv)}], [{w: expr_dir(dv)}], [{w: expr_dir(dv), f: expr_dir(g * dv)}]]),
+        )
+    )
     # second derivatives
     cf.append(
         (
@@ -192,8 +209,10 @@ def make_check(cfgs):
         ok = True
         for name, build, perts in cfgs:
             involved = set()
-            for p in perts:
-                involved |= set(p)
+            alts = perts[1] if isinstance(perts, tuple) else [perts]
+            for alt in alts:
+                for p in alt:
+                    involved |= set(p)
             depends = bool(coefs & involved)
             part.inc("transitions")
             wit = {"recipe": recipe, "show": key, "config": name, "F": repr(obj)[:1000]}
@@ -216,7 +235,10 @@ def make_check(cfgs):
                 continue
             for env in envs:
                 try:
-                    ref = model_derivative(obj, perts, env)[()]
+                    ref = None
+                    for alt in alts:
+                        r1 = model_derivative(obj, alt, env)[()]
+                        ref = r1 if ref is None else M.tzip(lambda a, b: a + b, ref, r1)
                     val = M.sem(ed, M.Ctx(env), {})
                 except Ambiguous:
                     part.count("ambiguous_env")
